@@ -24,6 +24,42 @@ from axolotl.axolotladdress import AxolotlAddress  # noqa: E402
 
 def main():
     spec = json.load(open(sys.argv[1]))
+    if spec.get("first_open_killed_after") is not None:
+        # the process dies (as by kill -9: no cleanup of any kind) when the k-th statement / commit of the store's very first
+        # open has been executed: what is on disk then is whatever the statements up to there have made durable
+        import sqlite3
+        k = int(spec["first_open_killed_after"])
+        seen = [0]
+
+        def tick():
+            seen[0] += 1
+            if seen[0] >= k:
+                os._exit(9)
+
+        class _Cur(sqlite3.Cursor):
+            def execute(self, *a, **kw):
+                r = sqlite3.Cursor.execute(self, *a, **kw)
+                tick()
+                return r
+
+        class _Con(sqlite3.Connection):
+            def cursor(self, *a, **kw):
+                return sqlite3.Connection.cursor(self, _Cur)
+
+            def execute(self, *a, **kw):
+                r = sqlite3.Connection.execute(self, *a, **kw)
+                tick()
+                return r
+
+            def commit(self):
+                sqlite3.Connection.commit(self)
+                tick()
+        real_connect = sqlite3.connect
+        sqlite3.connect = lambda *a, **kw: real_connect(*a, **dict(kw, factory=_Con))
+        LiteAxolotlStore(spec["db"])
+        sys.stdout.write("opened after %d\n" % seen[0])
+        sys.stdout.flush()
+        os._exit(0)
     store = LiteAxolotlStore(spec["db"])
     if spec.get("orderly_abort_after"):
         # the process is told to terminate (SIGTERM, handled the usual way: sys.exit) while the update is under way: the handler
